@@ -52,13 +52,20 @@ class Current(pd.Series):
         Raises:
             TypeError: Raised if other is not of type Current.
         """
-        if isinstance(other, Current):
+        if isinstance(other, pd.Series):
             return Current(self.add(other, fill_value=0))
         else:
-            TypeError("Must be of type Current.")
+            raise TypeError("Must be of type Current.")
 
     # Allow for right addition as well.
     __radd__ = __add__
+
+    def __mul__(self, other):
+        """ Return Current which is self scaled by the scalar other. """
+        return Current(pd.Series(self).mul(other))
+
+    # Allow for scalar * Current as well.
+    __rmul__ = __mul__
 
     def __sub__(self, other):
         """ Return Current which is self minus other.
